@@ -360,7 +360,8 @@ impl EnumProp for Interleave {
         let npairs = env.pickn(3, 6);
         let disk_len = env.pickn(4, 6);
         let npairs = npairs + 1;
-        let pairs: Vec<(Ty, Geom, Geom)> = ALL13
+        let big_len = env.pickn(4, 5);
+        let mut pairs: Vec<(Ty, Geom, Geom, usize)> = ALL13
             .iter()
             .flat_map(|t| {
                 (0..npairs).map(move |k| {
@@ -374,10 +375,42 @@ impl EnumProp for Interleave {
                             }
                         }
                     }
-                    (*t, a, b)
+                    (*t, a, b, usize::MAX)
                 })
             })
             .collect();
+        for t in ALL13.iter() {
+            // a pair whose `a` has NaN for every X (and, for the second variant, every coordinate): a header box that
+            // never grows must not be mistaken for "nothing written yet"
+            for variant in 0..2 {
+                let (mut a, b) = sample_pair(*t, env.seed, 100 + variant);
+                for p in a.parts.iter_mut() {
+                    for v in p.pts.iter_mut() {
+                        v[0] = F(f64::NAN.to_bits());
+                        if variant == 1 {
+                            v[1] = F(f64::NAN.to_bits());
+                            if t.has_z() {
+                                v[2] = F(f64::NAN.to_bits());
+                            }
+                            if t.carries_m() {
+                                v[3] = F(f64::NAN.to_bits());
+                            }
+                        }
+                    }
+                }
+                pairs.push((*t, a, b, if variant == 0 { usize::MAX } else { big_len }));
+            }
+            // a pair whose `b` is a record of more than 64 KiB next to a small `a` (short histories only)
+            if t.family() != Family::Point {
+                let (a, mut b) = sample_pair(*t, env.seed, 200);
+                let extra = b.parts[0].pts.clone();
+                while b.npoints() < 4400 {
+                    let v = extra[b.npoints() % extra.len()];
+                    b.parts[0].pts.push(v);
+                }
+                pairs.push((*t, a, b, big_len));
+            }
+        }
         let endings = [Ending::Drop, Ending::FinalizeDrop, Ending::WriteShapes(0), Ending::WriteShapes(2)];
         let mut seqs = SeqIter { alphabet: 3, len: 0, i: 0 };
         let mut pending: Vec<WHist> = Vec::new();
@@ -387,7 +420,10 @@ impl EnumProp for Interleave {
             }
             let s = seqs.next_seq(max_len)?;
             let ops: Vec<WOp> = s.iter().map(|x| [WOp::A, WOp::B, WOp::Fin][*x]).collect();
-            for (pi, (ty, a, b)) in pairs.iter().enumerate() {
+            for (pi, (ty, a, b, max_ops)) in pairs.iter().enumerate() {
+                if ops.len() > *max_ops {
+                    continue;
+                }
                 for ending in endings {
                     for with_shx in [true, false] {
                         pending.push(WHist {
@@ -401,7 +437,7 @@ impl EnumProp for Interleave {
                         });
                     }
                     // files on disk: histories up to disk_len, first pair of each type
-                    if ops.len() <= disk_len && pi % npairs == 0 {
+                    if ops.len() <= disk_len && (pi % npairs == 0 || pi >= 13 * npairs) {
                         pending.push(WHist {
                             ty: *ty,
                             with_shx: true,
